@@ -58,7 +58,7 @@ CHECKS = {
              "iter_mut, values_mut, children_mut, get_mut, get_lpm_mut, view value_mut/prefix_value_mut/iter_mut/values_mut/into_iter are transitions whose yielded sequence must equal the read-only order and whose successor must have the identical state key; union_mut/intersection_mut/difference_mut/covering_difference_mut on the pair space of C05 with writes through every reference and a full comparison of both maps."),
     "C14": c("E1 + E2 + E4-sched + E5-programs + E7-alias", "four deciders: every small map x view root x mutable traversal / pair of maps x *_mut set operation executed by the Miri interpreter with all references held and re-written before every further library call (aliasing model as per-execution oracle over an exhaustively enumerated case list); address-distinctness of all simultaneously live &mut (explorer, pair engine); shuttle DFS over ALL interleavings of workers on disjoint views with a scheduling point at every arena node write; bounded program grammar with rustc as oracle",
              "DESIGN.md 3 (C14)",
-             "(0) 128 maps over the prefixes of length <= 2 (three construction modes) x 9 roots x 16 bodies and 32 x 32 pairs of maps x 4 *_mut set operations x 8 root pairs (7 040 cases quick, 89 728 thorough): no undefined behaviour under Stacked Borrows (thorough: and Tree Borrows) while every reference obtained so far stays in use. (1) every mutable traversal of every state / pair holds all references at once: addresses pairwise distinct, views from recursive split pairwise disjoint. (2) for every U2 shape and 2-3 disjoint mutable views (split, nested split, union_mut over two of three) every interleaving at node-write granularity is executed on the real code under shuttle's DFS scheduler: final map = sequential result, per-worker footprints disjoint. (3) 352 client programs (aliasing borrow patterns, consumed views, thread crossing, auto-trait matrix for Rc/Cell/MutexGuard values) must be rejected by rustc while their controls compile.",
+             "(0) 128 maps over the prefixes of length <= 2 (three construction modes) x 9 roots x 12 bodies and 64 x 64 pairs of maps over 6 prefixes x 4 *_mut set operations x 4 root pairs x 4 construction policies (7 040 cases quick, 220 800 thorough): no undefined behaviour under Stacked Borrows (thorough: the quick list under Tree Borrows as well), addresses of held references pairwise distinct, while every reference obtained so far stays in use. (1) every mutable traversal of every state / pair holds all references at once: addresses pairwise distinct, views from recursive split pairwise disjoint. (2) for every U2 shape and 2-3 disjoint mutable views (split, nested split, union_mut over two of three) every interleaving at node-write granularity is executed on the real code under shuttle's DFS scheduler: final map = sequential result, per-worker footprints disjoint. (3) 352 client programs (aliasing borrow patterns, consumed views, thread crossing, auto-trait matrix for Rc/Cell/MutexGuard values) must be rejected by rustc while their controls compile.",
              TB + " Clause 2 is complete only at node-write granularity given footprint disjointness (which is checked on every schedule); clause 3 covers the listed grammar, not all safe Rust; rustc and shuttle's scheduler are trusted. Clause 0 is bounded by its universe and judged by the (experimental) aliasing models of the pinned nightly Miri, which is trusted."),
     "C15": c(E1, BFS + "; structural invariants on the arena dump after every transition; recursive walk through the public view API per state tied to the dump; canonical-alphabet exploration compared with freshly built maps",
              "DESIGN.md 3 (C15)",
